@@ -749,23 +749,64 @@ def _gen_order(rng, names, malformed):
 
 
 def _gen_rename(rng, names, fresh, malformed):
+    """renaming dictionary as [key, value] pairs (dict insertion order).  Well-formed ones are drawn from:
+    fresh names; swaps and longer cycles of existing names; chains where a new name is another axis' old
+    name (which itself moves on to a fresh name); identity entries; partial overlaps (a new name equal to an
+    old name that is *not* renamed: duplicate result, legitimately refused); keys by name, index or negative
+    index, mixed, in random order."""
     n = len(names)
-    k = rng.randint(1, n)
-    idx = rng.sample(range(n), k)
-    new = fresh.names(k, names)
+    mode = rng.choice(["fresh", "fresh", "swap", "cycle", "chain", "chain", "identity", "overlap", "mixed"])
+    tgt = {}                                   # axis index -> new name (simultaneous semantics)
+    if mode in ("swap", "cycle") and n >= 2:
+        k = 2 if (mode == "swap" or n == 2) else rng.randint(3, n) if n >= 3 else 2
+        idx = rng.sample(range(n), k)
+        sh = rng.randrange(1, k)               # rotation by sh: a k-cycle (or product of cycles)
+        for a in range(k):
+            tgt[idx[a]] = names[idx[(a + sh) % k]]
+        if rng.random() < 0.4:                 # plus an unrelated fresh rename
+            rest = [i for i in range(n) if i not in tgt]
+            if rest:
+                tgt[rng.choice(rest)] = fresh.names(1, names)[0]
+    elif mode == "chain" and n >= 2:
+        k = rng.randint(2, n)
+        idx = rng.sample(range(n), k)          # idx[0] -> name of idx[1] -> ... -> last gets a fresh name
+        for a in range(k - 1):
+            tgt[idx[a]] = names[idx[a + 1]]
+        tgt[idx[-1]] = fresh.names(1, names)[0]
+    elif mode == "identity":
+        for i in rng.sample(range(n), rng.randint(1, n)):
+            tgt[i] = names[i] if rng.random() < 0.6 else fresh.names(1, list(names) + list(tgt.values()))[0]
+    elif mode == "overlap" and n >= 2:
+        i, j = rng.sample(range(n), 2)
+        tgt[i] = names[j]                      # j keeps its name: duplicate, CoordinateSystem refuses
+        if rng.random() < 0.5:
+            rest = [t for t in range(n) if t not in (i, j)]
+            if rest:
+                tgt[rng.choice(rest)] = fresh.names(1, names)[0]
+    elif mode == "mixed" and n >= 2:
+        pool = list(names) + fresh.names(n, names)
+        for i in rng.sample(range(n), rng.randint(1, n)):
+            tgt[i] = rng.choice(pool)
+    if not tgt:
+        k = rng.randint(1, n)
+        for i, nn in zip(rng.sample(range(n), k), fresh.names(k, names)):
+            tgt[i] = nn
+    items = list(tgt.items())
+    rng.shuffle(items)                         # dict order must not matter
     kv = []
-    for i, nn in zip(idx, new):
+    for i, nn in items:
         r = rng.random()
-        key = names[i] if r < 0.55 else (i if r < 0.85 else i - n)
-        kv.append([key, nn])
+        kv.append([names[i] if r < 0.5 else (i if r < 0.8 else i - n), nn])
     if not malformed:
-        if rng.random() < 0.2 and n >= 1:      # both the index and the name of one axis: the index wins
-            i = idx[0]
-            extra = fresh.names(1, names + new)[0]
-            kv = [[names[i], extra]] + [p for p in kv if p[0] not in (names[i],)]
-            if not any(isinstance(p[0], int) and p[0] % n == i for p in kv):
-                kv.append([i, new[0]])
-        return kv, "ok"
+        if rng.random() < 0.2:                 # both the index and the name of one axis: the index wins
+            i, nn = items[0]
+            extra = fresh.names(1, list(names) + [v for _, v in items])[0]
+            kv = [[names[i], extra]] + [p for p in kv if not (p[0] == names[i] or
+                                                            (isinstance(p[0], int) and p[0] % n == i))]
+            kv.append([rng.choice([i, i - n]), nn])
+        final = [tgt.get(i, names[i]) for i in range(n)]
+        return kv, ("ok" if len(set(final)) == n else "any")
+    idx = [i for i, _ in items]
     w = rng.choice(["unknown", "dupname", "range"])
     if w == "unknown":
         kv.append(["nosuch", "zz"])
@@ -933,7 +974,17 @@ def _build(case):
                 continue
             vk = "int" if dt == "i8" else ("frac" if dt == "O" else "float")
             both = list(dcs["names"]) + list(rcs["names"])
-            op.update(**{"in": fresh.names(1, both)[0], "out": fresh.names(1, both)[0]},
+            a_in, a_out = fresh.names(1, both)[0], fresh.names(1, both)[0]
+            if rng.random() < 0.15:
+                # names colliding across sides are legal: the new input axis named like an existing output
+                # axis (or the other way round); only the later drop-by-name becomes ambiguous
+                free_o = [x for x in rcs["names"] if x not in dcs["names"]]
+                free_i = [x for x in dcs["names"] if x not in rcs["names"]]
+                if free_o and rng.random() < 0.5:
+                    a_in = rng.choice(free_o)
+                elif free_i:
+                    a_out = rng.choice(free_i)
+            op.update(**{"in": a_in, "out": a_out},
                       start=_val(rng, vk), step=rng.choice(["1", "2", "-1", "0", _val(rng, vk)]), vk=vk)
             if bad:
                 op["in"] = dcs["names"][0]
@@ -973,7 +1024,8 @@ def _build(case):
             d = {"op": "drop", "axis": rng.choice([op["in"], op["out"], -1]), "fix0": fz, "expect": "any"}
             try:
                 orn = _ornts(cur.affine, fz)
-                if step_nonzero and orn[-1] == cur.ndims[1] - 1:
+                clash = op["in"] in rcs["names"] or op["out"] in dcs["names"]
+                if step_nonzero and orn[-1] == cur.ndims[1] - 1 and not (clash and isinstance(d["axis"], str)):
                     d["expect"] = "ok"
                 with warnings.catch_warnings():
                     warnings.simplefilter("ignore")
